@@ -45,7 +45,7 @@ package client
 @*/
 
 /*@ func client.makeResourceListFn$1
-  props C20
+  props C20 C14
   note the request builder chain of client-go returns its receiver; the meaning of the chain (URL, all namespaces for an empty namespace) is client-go's
   requires (not (= {c} vnil))
   ghost req : V := vnil
